@@ -121,6 +121,8 @@ def r12_1_2(ctx):
                         origin += ', then modified at line %s' % tamper[0].get('l')
                 elif a.get('k') == 'CallExpr' and a.get('fid') and any(g['id'] in good for g in F.resolve(f, a['fid'])):
                     ok, origin = True, 'result of %s' % a.get('fn')
+                elif a.get('k') in ('MemberExpr',) or (a.get('k') == 'DeclRefExpr' and a.get('dk') == 'ParmVar'):
+                    raise AnalysisBroken('%s passes a simplecpp::DUI held in %s to %s: the rule follows only locals and temporaries' % (f['name'], a.get('n'), x['fn']))
                 ctx.ob('R12.1', 'dui-origin:%s:%s' % (f['name'], x['fn'].split('::')[-1]), ok,
                        ('%s passes %s to %s' % (f['name'], origin, x['fn'])) if ok else
                        ('%s passes a simplecpp::DUI to %s that is %s, not the unmodified result of a DUI producer that carries -D and -U' % (f['name'], x['fn'], origin)),
@@ -234,7 +236,15 @@ def r12_4(ctx):
                 loops.append(x)
     ctx.floor('R12.4 configuration loops', len(loops), 1)
 
-    def allowed(c):
+    bools = {v['di']: v['init'] for v in walk(body) if v.get('k') == 'VarDecl' and (v.get('t') or '').replace('const ', '') == 'bool' and v.get('init') is not None}
+
+    def allowed(c, depth=0):
+        if depth < 3:
+            for y in walk(c):
+                if y.get('k') == 'DeclRefExpr' and y.get('di') in bools:
+                    r = allowed(bools[y['di']], depth + 1)
+                    if r:
+                        return r
         for y in walk(c):
             if y.get('k') == 'CallExpr' and (y.get('fn') or '') == 'Settings::terminated':
                 return 'terminated'
